@@ -5,8 +5,9 @@ cd "$(dirname "$0")/.." || exit 2
 rc=0
 for r in guard/*.diff; do
   case "$r" in
-    *R1*) C="C01 C06 C07 C15 C18 C04";; *R2*) C="C10 C04 C01 C15";; *R3*) C="C01 C07 C15 C14 C04";;
+    *R1_*) C="C01 C06 C07 C15 C18 C04";; *R2*) C="C10 C04 C01 C15";; *R3*) C="C01 C07 C15 C14 C04";;
     *R4*) C="C03 C11 C12 C16";; *R5*) C="C14 C07";; *R6*) C="C06 C01 C15";; *R7*) C="C13 C16 C18 C03 C11";;
+    *R8*) C="C10 C04";; *R9*) C="C04 C07";; *R10*) C="C03 C11 C16 C13 C18";;
     *) C="C01";;
   esac
   echo "##### $r"
